@@ -88,7 +88,11 @@ _add('C10',
      'happens at the sum of the inter-arrival samples the distribution object returned so far (one sample per arrival, and no arrival is overdue when '
      'the clock moves), customers created = the sampled batch sizes, every uninterrupted service at an ordinary node lasts exactly the value sampled '
      'for that customer at its start instant, and a sample that is not a non-negative number (batch: non-negative integer) ends the run with an error. '
-     'K1: observed runs on all regions + a malformed-sample stream (negative, nan, non-numeric, non-integer batch).',
+     'K1: observed runs on all regions + a malformed-sample stream (negative, nan, non-numeric, non-integer batch). '
+     'T2 (Coq, Inv/Samples.v, engine model stage 1, every configuration and oracle): arrival_have_event_spec (an arrival event creates exactly the sampled batch size and moves its stream on by exactly the '
+     'sampled inter-arrival time, no other stream moves), negative_batch_is_an_error, finish_service_keeps_arrivals, start_service_spec (start, sampled duration, end = start + duration on the customer, '
+     'same end on the server), run_many_svc / SvcInv_means (the stamps stay consistent over any number of events), record_shows_sampled_time. K2 ties the model to the code step by step and evaluates '
+     'the invariant on every real snapshot visited.',
      'Samples are logged inside the scripted distribution objects (the oracle), independently of the engine attributes they are compared with.')
 _add('C13',
      'T1 C13_sound (Coq, induction over event lists of any length): on every accepted run the patience is sampled at arrival; a renege happens '
